@@ -27,8 +27,12 @@ ParamsOf == [probe |-> {"defocus", "C30", "C12", "phi12", "semiangle_cutoff", "t
              spatial |-> {"angular_spread", "defocus"}]
 Objects == DOMAIN ParamsOf
 ParamSets(o) == {{p} : p \in ParamsOf[o]} \cup {{p, q} : p \in ParamsOf[o], q \in ParamsOf[o]}
-Init == /\ \E o \in Objects : \E ps \in ParamSets(o) : \E n1 \in 1..3, n2 \in {2}, soft \in BOOLEAN, mean \in BOOLEAN, lz \in BOOLEAN :
-             c = [obj |-> o, params |-> ps, n1 |-> n1, n2 |-> n2, soft |-> soft, mean |-> mean, lazy |-> lz]
+(* batch: max_batch of the lazy graph ("two" splits a 5-member axis unevenly: 2, 2, 1); companion: the scalar parameters   *)
+(* that accompany the distributions are zero or non-zero (a tilt given as (distribution, scalar), a CTF with a fixed Cs) *)
+Init == /\ \E o \in Objects : \E ps \in ParamSets(o) : \E n1 \in {1, 2, 3, 5}, n2 \in {2}, soft \in BOOLEAN, mean \in BOOLEAN, lz \in BOOLEAN,
+                                                       b \in {"auto", "two"}, comp \in {"zero", "nonzero"} :
+             /\ (b = "two" => lz /\ n1 = 5) /\ (n1 = 5 => b = "two")
+             /\ c = [obj |-> o, params |-> ps, n1 |-> n1, n2 |-> n2, soft |-> soft, mean |-> mean, lazy |-> lz, batch |-> b, companion |-> comp]
         /\ done = FALSE
 Next == ~done /\ done' = TRUE /\ UNCHANGED c
 Spec == Init /\ [][Next]_vars
